@@ -104,9 +104,11 @@ def setup():
     mod = importlib.util.module_from_spec(spec)
     loader.exec_module(mod)
     sys.modules[name] = mod
+    import logging
     import warnings
 
     warnings.filterwarnings("ignore")
+    logging.disable(logging.CRITICAL)
     import wavespectra  # noqa: F401
 
     got = os.path.abspath(os.path.dirname(os.path.dirname(wavespectra.__file__)))
@@ -126,3 +128,13 @@ def workdir():
     d = os.path.join(WORK, str(os.getpid()))
     os.makedirs(d, exist_ok=True)
     return d
+
+
+def cleanup_workdir():
+    import shutil
+
+    shutil.rmtree(os.path.join(WORK, str(os.getpid())), ignore_errors=True)
+    try:
+        os.rmdir(WORK)
+    except OSError:
+        pass
